@@ -177,3 +177,47 @@ def ob_input_panics(ctx, res):
     res.count("parse_unwraps_examined", n)
     if not res.violations:
         res.ok(CLI_FILES[0], "%d unwrap/expect sites on input-derived values examined in the two converter CLIs, the sources and the parsers: none on data lines" % n)
+
+
+def ob_empty_and_tool_refusals(ctx, res):
+    """C13-G9: an input that yields no chromosome is refused by the writer itself (whatever the source); the converters never report success for a refusal"""
+    W = "bigtools/src/bbi/bbiwrite.rs"
+    for name in ("write_vals", "write_vals_no_zoom"):
+        fn = ctx.ast.fn(W, name)
+        pc = [c for c in walk_no_nested_fn(fn.body) if c.k == "mcall" and c["method"] == "process_to_bbi"]
+        gi = [c for c in walk_no_nested_fn(fn.body) if c.k == "mcall" and c["method"] == "get_id"]
+        if len(pc) != 1 or len(gi) != 1:
+            res.fail("emptyInput/%s/shape" % name, fn, "process_to_bbi / id allocation not found")
+            continue
+        idmap = up(strip(gi[0]["recv"]))
+        gs = [n for n in fn.body["stmts"] if n.k == "expr_stmt" and strip(n["e"]).k == "if" and up(strip(strip(n["e"])["cond"])) == "%s.is_empty()" % idmap
+              and re.match(r"\{return Err\(", up(strip(n["e"])["then"]))]
+        st = pc[0]
+        while st is not None and isinstance(st, Node) and st.parent is not fn.body:
+            st = st.parent
+        later_ok = [n for n in fn.body["stmts"] if n.k == "let" and "unwrap_or(" in up(n.get("init") or n) and "summary" in up(n["pat"])]
+        if len(gs) != 1 or st is None or not (st.order < gs[0].order) or (later_ok and not gs[0].order < later_ok[0].order):
+            res.fail("emptyInput/%s" % name, pc[0],
+                     "a source that starts no chromosome (an empty index on the parallel path, an empty merge, any other BBIDataSource) makes the write return Ok(()) "
+                     "with an empty chromosome list: only the serial text source refuses empty input itself; the writer must refuse once the source is exhausted "
+                     "without a single chromosome id")
+        else:
+            res.ok(gs[0], "%s: no chromosome started -> Err(InvalidInput) right after the source is exhausted" % name)
+    ie = ctx.ast.fn("bigtools/src/utils/idmap.rs", "is_empty", required=False)
+    if ie is None or not re.fullmatch(r"\{self\.map\.is_empty\(\)\}", up(ie.body)):
+        res.fail("emptyInput/idmap", "bigtools/src/utils/idmap.rs", "IdMap::is_empty must be map.is_empty()")
+    else:
+        res.ok(ie, "IdMap::is_empty == map.is_empty()")
+    # the converters: success is reported only by falling off the end
+    for file, name in (("bigtools/src/utils/cli/bedgraphtobigwig.rs", "bedgraphtobigwig"), ("bigtools/src/utils/cli/bedtobigbed.rs", "bedtobigbed")):
+        fn = ctx.ast.fn(file, name)
+        created = [c for c in walk_no_nested_fn(fn.body) if c.k == "call" and up(c["func"]).endswith("::create_file")]
+        if len(created) != 1:
+            res.fail("toolRefusal/%s/shape" % name, fn, "creation of the output file not found")
+            continue
+        early = [n for n in walk_no_nested_fn(fn.body) if n.k == "return" and n.get("e") is not None and up(strip(n["e"])) == "Ok(())" and n.order > created[0].order]
+        if early:
+            res.fail("toolRefusal/%s" % name, early[0],
+                     "`return Ok(())` after the output file has been created: the tool prints a refusal (unsorted input under --parallel yes) and exits 0, leaving an empty output file")
+        else:
+            res.ok(fn, "%s: no `return Ok(())` once the output file exists: a refusal is an error exit" % name)
